@@ -316,9 +316,17 @@ impl FatVolume {
                         // There is no next cluster
                         Err(Error::EndOfFile)
                     }
-                    f => {
+                    f if self.cluster_in_range(ClusterId(u32::from(f))) => {
                         // Seems legit
                         Ok(ClusterId(u32::from(f)))
+                    }
+                    0x0000 => {
+                        // Jumped to free space
+                        Err(Error::UnterminatedFatChain)
+                    }
+                    _ => {
+                        // Not a cluster of this volume
+                        Err(Error::BadCluster)
                     }
                 }
             }
@@ -344,13 +352,25 @@ impl FatVolume {
                         // There is no next cluster
                         Err(Error::EndOfFile)
                     }
-                    f => {
+                    f if self.cluster_in_range(ClusterId(f)) => {
                         // Seems legit
                         Ok(ClusterId(f))
+                    }
+                    _ => {
+                        // Not a cluster of this volume
+                        Err(Error::BadCluster)
                     }
                 }
             }
         }
+    }
+
+    /// Is this the number of a cluster that exists on this volume?
+    ///
+    /// Cluster numbers read from the disk (directory entries, the FAT) must
+    /// pass this test before they are turned into block numbers.
+    pub(crate) fn cluster_in_range(&self, cluster: ClusterId) -> bool {
+        cluster.0 >= RESERVED_ENTRIES && cluster.0 - RESERVED_ENTRIES < self.cluster_count
     }
 
     /// Number of bytes in a cluster.
